@@ -7,11 +7,11 @@ USES_STRINGS = True
 META = dict(
     functions=['pmutt.io.thermdat.write_thermdat/_write_line1.._write_line4/_insert_space',
                'pmutt.io.thermdat.read_thermdat/_get_fields/_is_temperature_header/_read_line_num/_read_line1.._read_line4'],
-    bounds=dict(quick='1-2 species; names of 1-6 symbolic characters (upper-case letters; one group with a leading digit / punctuation), 0-4 elements '
+    bounds=dict(quick='1-2 species; names of 1-6 and of 15 symbolic characters (upper-case letters; one group with a leading digit / punctuation), 0-4 elements '
                       'with 1-2 symbolic letters, counts symbolic per digit class (1-9, 10-99, 100-999, and zero), symbolic phase character, '
                       'temperatures symbolic per digit class in [1, 9999.9], the 14 coefficients symbolic reals (two-digit exponent range or 0), '
                       'date on / notes, list / tuple / dict read formats',
-                thorough='names up to 10 characters, 3 species'),
+                thorough='names of 8, 10, 12, 14 and 15 characters, 3 species'),
     outside_claim=['that a printed decimal has the stated number of correct digits (CPython formatter; a coefficient is identified by the token '
                    '(spec, value) the writer produced, temperatures by value with the 0.05 contract of %.1f)', '200 species (the per-species loop '
                    'carries only nasa_data, exercised by the 2-3 species runs)', 'supplementary data / comment blocks beyond literal text',
@@ -200,6 +200,12 @@ def groups(tier):
                                   max_paths=3000, budget_s=1500 if not th else 7000))
     g.append(dict(name='roundtrip/1sp/notes-instead-of-date', harness=h_roundtrip, params=dict(shapes=[(3, 'upper', E1)], fmt='list', write_date=False),
                   no_validate=True, max_paths=3000))
+    # the longest names the property speaks of (the name field is 15 wide, one guaranteed blank after it)
+    for nl in ((15, 14, 12) if th else (15,)):
+        for wd in (True, False):
+            g.append(dict(name='roundtrip/1sp/name%d-upper/date=%s' % (nl, wd), harness=h_roundtrip,
+                          params=dict(shapes=[(nl, 'upper', E1)], fmt='list', write_date=wd, sign_rot=len(g) % len(SIGNS)), no_validate=True,
+                          max_paths=3000, budget_s=1500 if not th else 7000))
     two = [[(3, 'upper', E1), (3, 'upper', E1)], [(2, 'upper', []), (4, 'upper', [(1, 2)])]]
     if th:
         two += [[(5, 'upper', E1), (3, 'upper', E1)], [(3, 'upper', E1), (3, 'upper', E1), (3, 'upper', E1)]]
